@@ -41,7 +41,7 @@ EXTRA_TABLES = {"t8": {"C": 5, "N": 4, "O": 3, "F": 2, "S": 1, "N+1": 0, "Fe": 3
 
 
 AROM = ["c1ccccc1", "c1ccncc1", "c1cc[nH]c1", "c1ccoc1", "c1ccsc1", "c1ccc2ccccc2c1", "c1ccc2[nH]ccc2c1", "c1cnc[nH]1",
-        "c1ccn(C)c1", "O=c1cccc[nH]1", "c1cc[n+](C)cc1"]
+        "c1ccn(C)c1", "O=c1cccc[nH]1", "c1cc[n+](C)cc1", "c1ccpcc1", "c1cc[se]c1", "c1ccs(=O)c1", "c1ccp(=O)(C)cc1"]
 ARO_TABLES = {"default": "default", "octet_rule": "octet_rule",
               "arene-tight": {"C": 3, "N": 3, "O": 2, "S": 2, "F": 1, "N+1": 4, "?": 4},
               "N2": {"C": 4, "N": 2, "O": 2, "S": 2, "F": 1, "N+1": 3, "?": 4},
@@ -219,6 +219,7 @@ def check_aromatic(smi, r):
         return None
     r.states += 1
     ok = True
+    loose = {}
     for tn, spec in ARO_TABLES.items():
         _SF.set_semantic_constraints(spec if isinstance(spec, str) else dict(spec))
         table = _SF.get_semantic_constraints()
@@ -252,7 +253,13 @@ def check_aromatic(smi, r):
             r.nontrivial.add(h64(xl))
         except Exception as e:
             ok = False
+            xl = "raises " + type(e).__name__
             r.violation("nonstrict-raises:" + type(e).__name__, case, "encoder(%r, strict=False)" % smi)
+        loose[tn] = xl
+    if len(set(loose.values())) > 1:
+        ok = False
+        r.violation("nonstrict-depends-on-table:aromatic", {"smiles": smi, "table_name": None, "aromatic": True},
+                    "encoder(%r, strict=False) differs across tables: %r" % (smi, loose))
     if ok:
         r.validated += 1
     return total
